@@ -5,7 +5,9 @@ Signature model (assumed contract of inspect.signature, validated natively again
   at most one VARPOS / VARKW, names pairwise distinct (ghost inverse idx), '*' and '**' are not parameter names.
   Blocks: positional parameters = [0, NP), keyword-only = [KLO, KHI), VARPOS at NP iff KLO == NP + 1 ... (block axioms).
 Call: args[0..A), kwargs : Name -> Val.  `accepts` is Python's acceptance condition (DESIGN Appendix D), `pybind` the value
-Python binds to each named parameter.  Plain functions here; bound methods (self prepended) are covered by the bounded oracle.
+Python binds to each named parameter.  Two variants: plain functions, and bound methods (the instance prepended to the
+arguments, its name prepended to the parameter names: the L1 invariants are stated with an offset OFF = 1, the later ones over
+the full signature of the underlying function).
 """
 import z3
 
@@ -154,16 +156,76 @@ def build():
     for const, v in (("POSITIONAL_ONLY", 0), ("POSITIONAL_OR_KEYWORD", 1), ("VAR_POSITIONAL", 2), ("KEYWORD_ONLY", 3), ("VAR_KEYWORD", 4)):
         p.models["getattr:Param." + const] = (lambda v: (lambda interp, recv: v))(v)
     p.models["getattr:Param.empty"] = lambda interp, recv: Sym(Val, EMPTY)
-    p.models["inspect.signature"] = lambda i, a, k: Opaque("signature", None, parameters=Opaque("paramsmap", None))
-    p.models["paramsmap.values"] = lambda i, r, a, k: i.ctx.ghost["SIG"]
-    p.models["inspect.ismethod"] = lambda i, a, k: False
-    p.models["inspect.isfunction"] = lambda i, a, k: True
+    SELFV = z3.Const("the_instance", Val.sort())
+
+    def prepend(ctx, elt, x, lst, hint):
+        """[x] + lst for a symbolic list: a new list with shift axioms (both directions, so that either list's elements can trigger them)"""
+        nm = ctx.fresh_name(hint)
+        arr2 = z3.Const(nm, z3.ArraySort(z3.IntSort(), elt.sort()))
+        j = z3.Int("j!pre")
+        ctx.assume(z3.Select(arr2, 0) == x)
+        ctx.assume(z3.ForAll([j], z3.Implies(z3.And(1 <= j, j <= lst.length), z3.Select(arr2, j) == z3.Select(lst.arr, j - 1)), patterns=[z3.Select(arr2, j)]))
+        ctx.assume(z3.ForAll([j], z3.Implies(z3.And(0 <= j, j < lst.length), z3.Select(arr2, j + 1) == z3.Select(lst.arr, j)), patterns=[z3.Select(lst.arr, j)]))
+        return SList(elt, arr2, lst.length + 1)
+
+    def visible_params(interp):
+        """inspect.signature(bound method).parameters.values(): the parameters of the underlying function without the first one"""
+        ctx = interp.ctx
+        g = ctx.ghost
+        if "SIGV" not in g:
+            sig = g["SIG"]
+            nm = ctx.fresh_name("visible")
+            arr = z3.Const(nm, z3.ArraySort(z3.IntSort(), Param.sort()))
+            j = z3.Int("j!vis")
+            ctx.assume(z3.ForAll([j], z3.Implies(z3.And(0 <= j, j < sig.length - 1), z3.Select(arr, j) == z3.Select(sig.arr, j + 1)), patterns=[z3.Select(arr, j)]))
+            g["SIGV"] = SList(Param, arr, sig.length - 1)
+        return g["SIGV"]
+
+    def m_signature(interp, args, kwargs):
+        f = args[0]
+        full = not interp.ctx.ghost.get("METHOD") or (isinstance(f, Opaque) and f.tag == "underlying")
+        return Opaque("signature", None, parameters=Opaque("paramsmap", None, full=full))
+
+    p.models["inspect.signature"] = m_signature
+    p.models["paramsmap.values"] = lambda i, r, a, k: i.ctx.ghost["SIG"] if r.attrs.get("full", True) else visible_params(i)
+    p.models["paramsmap.__iter__"] = lambda i, r, a, k: Opaque("paramsiter", None, full=r.attrs.get("full", True))
+
+    def params_next(interp, it, args, kwargs):
+        if not it.attrs["full"]:
+            raise Unsupported("iteration over the visible parameters")
+        sig = interp.ctx.ghost["SIG"]
+        return Sym(Name, P_NAME(z3.Select(sig.arr, 0)))  # NP >= 1 is required: the signature is not empty
+
+    p.models["paramsiter.__next__"] = params_next
+    p.models["inspect.ismethod"] = lambda i, a, k: bool(i.ctx.ghost.get("METHOD"))
+    p.models["inspect.isfunction"] = lambda i, a, k: not i.ctx.ghost.get("METHOD")
+    p.models["getattr:userfunc.__self__"] = lambda interp, recv: Sym(Val, SELFV)
+    p.models["getattr:userfunc.__func__"] = lambda interp, recv: Opaque("underlying", None)
+
+    def concat(interp, a, b):
+        ctx = interp.ctx
+        if isinstance(a, PyList) and len(a.items) == 1:
+            x = a.items[0]
+            if isinstance(b, MemberList):
+                return MemberList(z3.Store(b.mem, to_term(x), True), b.n + 1)
+            if isinstance(b, SList) and b.elt is Val and "ARGS0" in ctx.ghost and ctx.ghost.get("METHOD") and z3.eq(to_term(x), SELFV):
+                return ctx.ghost["ARGS0"].clone()  # [func.__self__] + args is, by definition, the argument list the underlying function receives
+            if isinstance(b, SList):
+                return prepend(ctx, b.elt, to_term(x), b, "prepended")
+        return None
+
+    p.models["concat"] = concat
     p.assume_note("inspect.signature(func) returns a well-formed parameter list that matches the function (CPython): kinds ordered, one */** at most, distinct identifiers, block structure")
-    p.assume_note("plain functions (inspect.ismethod False, inspect.isfunction True); bound methods and partials: bounded native oracle only")
+    p.assume_note("plain functions and bound methods (variant bound-method: the signature seen by inspect.signature(func) is that of func.__func__ without its first, positional, "
+                  "parameter; the underlying function receives [func.__self__] + args); functools.partial objects and methods whose first parameter is *args: bounded native oracle only")
     glob = {"get_func_name": lambda interp: _Fn(lambda i, a, k: ((), STR.fresh(i.ctx, "fname")))}
 
     def G(interp, n):
         return ops.as_int_term(interp.ctx.ghost[n])
+
+    def OFF(interp):
+        """number of leading parameters of SIG that inspect.signature(func) does not show (1 for a bound method: the instance)"""
+        return 1 if interp.ctx.ghost.get("METHOD") else 0
 
     def setup(interp, env):
         ctx = interp.ctx
@@ -182,7 +244,13 @@ def build():
         # the ignore list: distinct names (ghost inverse)
         ign = env.lookup("ignore_lst")
         ctx.assume(z3.ForAll([j], z3.Implies(z3.And(0 <= j, j < ign.length), IGN_IDX(z3.Select(ign.arr, j)) == j), patterns=[z3.Select(ign.arr, j)]))
-        g["ARGS0"] = env.lookup("args").clone()
+        a0 = env.lookup("args")
+        if g.get("METHOD"):
+            # the underlying function receives the instance first; its first parameter is positional (def m(*a) methods are out of scope)
+            ctx.assume(NP >= 1)
+            g["ARGS0"] = prepend(ctx, Val, SELFV, a0, "args_with_self")
+        else:
+            g["ARGS0"] = a0.clone()
         g["KW0"] = env.lookup("kwargs").clone()
 
     # ---- spec functions -----------------------------------------------------------------------
@@ -255,15 +323,17 @@ def build():
         NP, KLO, KHI = G(interp, "NP"), G(interp, "KLO"), G(interp, "KHI")
         mn = lambda a, b: z3.If(a <= b, a, b)
         cl = lambda x, lo, hi: z3.If(x < lo, lo, z3.If(x > hi, hi, x))
-        npos = mn(u, NP)
+        off = OFF(interp)
+        u = u + off
+        npos = mn(u, NP) - off
         nkw = cl(u, KLO, KHI) - KLO
         if isinstance(lst, PyList):
             return ops.mk_bool(z3.And(npos + nkw == len(lst.items))) if not lst.items else False
         j = z3.Int("j!nm")
         return ops.mk_bool(z3.And(
             lst.length == npos + nkw,
-            z3.ForAll([j], z3.Implies(z3.And(0 <= j, j < npos), z3.Select(lst.arr, j) == P_NAME(z3.Select(sig.arr, j))), patterns=[z3.Select(lst.arr, j)]),
-            z3.ForAll([j], z3.Implies(z3.And(NP <= j, j < NP + nkw), z3.Select(lst.arr, j) == P_NAME(z3.Select(sig.arr, KLO + j - NP))),
+            z3.ForAll([j], z3.Implies(z3.And(0 <= j, j < npos), z3.Select(lst.arr, j) == P_NAME(z3.Select(sig.arr, j + off))), patterns=[z3.Select(lst.arr, j)]),
+            z3.ForAll([j], z3.Implies(z3.And(NP - off <= j, j < NP - off + nkw), z3.Select(lst.arr, j) == P_NAME(z3.Select(sig.arr, KLO + j - (NP - off)))),
                       patterns=[z3.Select(lst.arr, j)]),
         ))
 
@@ -276,7 +346,9 @@ def build():
             return len(ml.items) == 0 and True
         k = z3.Const("k!ml", Name.sort())
         i = IDX(k)
-        want = z3.And(0 <= i, i < u, i < sig.length, P_NAME(z3.Select(sig.arr, i)) == k, P_KIND(z3.Select(sig.arr, i)) == kind)
+        off = OFF(interp)
+        u = u + off
+        want = z3.And(off <= i, i < u, i < sig.length, P_NAME(z3.Select(sig.arr, i)) == k, P_KIND(z3.Select(sig.arr, i)) == kind)
         KLO, KHI = G(interp, "KLO"), G(interp, "KHI")
         cl = lambda x, lo, hi: z3.If(x < lo, lo, z3.If(x > hi, hi, x))
         cnt = (cl(u, KLO, KHI) - KLO) if kind == 3 else None
@@ -294,14 +366,16 @@ def build():
             return len(d.d) == 0
         k = z3.Const("k!df", Name.sort())
         i = IDX(k)
-        want = z3.And(0 <= i, i < u, i < sig.length, P_NAME(z3.Select(sig.arr, i)) == k, P_DEF(z3.Select(sig.arr, i)) != EMPTY)
+        off = OFF(interp)
+        u = u + off
+        want = z3.And(off <= i, i < u, i < sig.length, P_NAME(z3.Select(sig.arr, i)) == k, P_DEF(z3.Select(sig.arr, i)) != EMPTY)
         return ops.mk_bool(z3.ForAll([k], z3.And(z3.Select(d.dom, k) == want, z3.Implies(want, z3.Select(d.arr, k) == P_DEF(z3.Select(sig.arr, i))))))
 
     p.spec_funcs["defaults_are"] = defaults_are
     p.spec_funcs["has_varpos"] = lambda interp: ops.mk_bool(G(interp, "KLO") > G(interp, "NP"))
     p.spec_funcs["has_varkw"] = lambda interp: ops.mk_bool(interp.ctx.ghost["SIG"].length > G(interp, "KHI"))
-    p.spec_funcs["seen_varpos"] = lambda interp, upto: ops.mk_bool(z3.And(G(interp, "KLO") > G(interp, "NP"), ops.as_int_term(upto) > G(interp, "NP")))
-    p.spec_funcs["seen_varkw"] = lambda interp, upto: ops.mk_bool(z3.And(interp.ctx.ghost["SIG"].length > G(interp, "KHI"), ops.as_int_term(upto) > G(interp, "KHI")))
+    p.spec_funcs["seen_varpos"] = lambda interp, upto: ops.mk_bool(z3.And(G(interp, "KLO") > G(interp, "NP"), ops.as_int_term(upto) + OFF(interp) > G(interp, "NP")))
+    p.spec_funcs["seen_varkw"] = lambda interp, upto: ops.mk_bool(z3.And(interp.ctx.ghost["SIG"].length > G(interp, "KHI"), ops.as_int_term(upto) + OFF(interp) > G(interp, "KHI")))
 
     def varkw_is(interp, d, upto):
         """varkwargs after `upto` keyword items: exactly the processed surplus keywords, with their values."""
@@ -487,6 +561,17 @@ def build():
             "surplus_keywords_under_double_star": "dstar_ok(result)",
         },
         # every call that Python accepts is accepted: NO exception may escape under `accepts`
+        loops={1: L1, 2: L2, 3: L3, 4: L4},
+    ))
+    p.add(Contract(
+        FI, "filter_args", variant="bound-method", props=["C07", "C02", "C06"], ghost=dict(GH, METHOD=True), globals=glob, setup=full_setup,
+        params=dict(func=OpaqueOf("userfunc"), ignore_lst=ListOf(Name), args=ListOf(Val), kwargs=DictOf(Name, Val)),
+        requires=["accepts()", "ignore_known()"],
+        ensures={
+            "every_parameter_bound_as_python_does_minus_the_ignore_list": "result_ok(result)",
+            "surplus_positionals_under_star": "star_ok(result)",
+            "surplus_keywords_under_double_star": "dstar_ok(result)",
+        },
         loops={1: L1, 2: L2, 3: L3, 4: L4},
     ))
     return p
